@@ -189,6 +189,8 @@ type verifMgr struct {
 	holdRestart bool // RestartDataTransferChannel calls may be held too (ConnectTo calls always may)
 	slack       int  // see VerifC14_RestartRaces
 	fails       int
+	holdClose   bool // the first CloseDataTransferChannelWithError call is held in flight
+	closeHeld   bool
 	gate        chan struct{} // a held call waits here; verifRelease deposits one token
 	held        int
 	failed      string // native only: first failed check on a monitor goroutine
@@ -414,6 +416,14 @@ func (d *verifMgr) RestartDataTransferChannel(ctx context.Context, chid datatran
 func (d *verifMgr) CloseDataTransferChannelWithError(ctx context.Context, chid datatransfer.ChannelID, cherr error) error {
 	d.closes++
 	d.check(d.closes <= 1, "the channel is closed with an error at most once")
+	if d.holdClose && d.closes == 1 {
+		// the close itself is slow (it sends a message to the peer): the environment holds it
+		d.closeHeld = true
+		d.held++
+		<-d.gate
+		d.held--
+		d.closeHeld = false
+	}
 	d.check(chid == d.chid, "the monitor closes its own channel")
 	d.check(cherr != nil, "the close carries an error")
 	d.closeCtxLive = ctx.Err() == nil
